@@ -28,6 +28,10 @@ class Episode:
         inc = filt.make_increments(m, t0, stamps, rng)
         inc[['theta_x', 'theta_y', 'theta_z']] += (0.3 * rng.randn(N, 3)) * inc[['dt']].values    # 3-axis rotation
         inc[['dv_x', 'dv_y', 'dv_z']] += (15.0 * rng.randn(N, 3)) * inc[['dt']].values             # up to ~2 g, also vertical
+        quiet = rng.rand(N) < 0.2                                                                      # rows below the small-angle threshold of the kernel
+        inc.loc[inc.index[quiet], ['theta_x', 'theta_y', 'theta_z']] *= 1e-4
+        if N > 3 and rng.rand() < 0.3:
+            inc.iloc[int(rng.randint(N)), 1:4] = 0.0                                                   # an exactly zero rotation
         self.inc = inc
         self.inc_snapshot = inc.values.copy()
         self.times = [t0] + [float(x) for x in stamps]
@@ -39,6 +43,16 @@ class Episode:
     def new_pva(self, label, vd_zero, allow_perm=True):
         rng = self.rng
         p = filt.make_pva(self.m, label, rng, 0.0 if vd_zero else float(rng.choice([4.0, -2.5, 0.75])))
+        # the whole input domain: both hemispheres, high latitudes, the date line, negative altitude, angles outside the
+        # canonical ranges (a heading of 200 or -190 degrees is a legitimate input and must be kept as supplied)
+        if rng.rand() < 0.5:
+            p['lat'] = float(rng.choice([-84.5, -33.25, 0.0, 1e-9, 72.5, 84.5]))
+            p['lon'] = float(rng.choice([-179.99, 179.99, 0.0, 123.456]))
+            p['alt'] = float(rng.choice([-400.0, 0.0, 18000.0]))
+        if rng.rand() < 0.4:
+            p['heading'] = float(rng.choice([200.0, -190.0, 370.0, 180.0, -180.0]))
+            p['roll'] = float(rng.choice([p['roll'], 179.0, -181.0]))
+            p['pitch'] = float(rng.choice([p['pitch'], 60.0, -75.0]))
         if self.perm and allow_perm and rng.rand() < 0.5:
             p = p[list(rng.permutation(COLS))]
         return p
